@@ -33,6 +33,9 @@ MemInit == [targets |-> {}, targetDirs |-> {}, avail |-> EmptyFn, njob |-> 1, ca
 AuxInit == [tid |-> "", mem |-> MemInit,
             running |-> {},      \* {<<job, stepKey>>} commands in flight
             inflight |-> {},     \* step keys popped and not yet settled
+            neededAtPop |-> {},  \* step keys that were needed (by definition) when they were dispatched
+            readyAtPop |-> {},   \* step keys whose inputs were all available when they were dispatched
+            redefInflight |-> {},  \* step keys whose row was re-created by define_step while their job was in flight (F25)
             holdDepth |-> EmptyFn,   \* stepKey -> open holds (>0 only)
             heldBy |-> EmptyFn,      \* child stepKey -> holding creator stepKey
             rpcOpen |-> EmptyFn,     \* task -> number of state-changing commits so far
@@ -52,6 +55,7 @@ AuxInit == [tid |-> "", mem |-> MemInit,
             produced |-> EmptyFn,    \* path -> content last written by the step that declared it as output
             volatileEver |-> {},     \* paths ever declared volatile
             diskBefore |-> EmptyFn,  \* files on disk when the last phase ended (before clean-up)
+            recordedBefore |-> EmptyFn,  \* path -> content StepUp had recorded for it when the last phase ended
             phaseRc |-> 0,
             released |-> {},         \* steps that closed their outermost hold in this lifetime
             lostEdge |-> {},         \* files that lost a consumer edge in this trace
@@ -168,6 +172,9 @@ OnCommit(e, lineNo) ==
     /\ aux' = [aux EXCEPT
           !.inTxn = FALSE,
           !.inflight = IF IsNoState(st) THEN @ ELSE SettleInflight(st, new, @),
+          !.redefInflight = IF IsNoState(st) \/ e.fn # "define_step" THEN @
+                            ELSE @ \cup {s \in aux.inflight : s \in Keys(st) /\ s \in Keys(new)
+                                            /\ st.nodes[s].sstate \in {"RUNNING", "CHECKING"} /\ new.nodes[s].sstate = "PENDING"},
           !.heldBy = Restrict(@, {c \in DOMAIN @ :
                         @[c] \in Keys(new) /\ new.nodes[@[c]].sstate = "RUNNING"
                         /\ new.nodes[@[c]].holding > 0}),
@@ -219,9 +226,14 @@ OnPop(e, lineNo) ==
         cv == CacheViolations(pre, aux.mem)
         lim == IF e.nrunning >= aux.mem.njob THEN {<<"job_slot_overcommitted", "">>} ELSE {}
         drn == IF e.draining THEN {<<"dispatch_while_draining", "">>} ELSE {}
+        c03 == IF s \in Keys(pre) /\ ~ReadyDef(pre, s) THEN {<<"dispatched_with_unavailable_input", s>>} ELSE {}
+        c11 == IF s \in Keys(pre) /\ ~pre.nodes[s].detached /\ ~NeededStep(pre, aux.mem, s)
+               THEN {<<"dispatched_step_that_is_not_needed", s>>} ELSE {}
     IN /\ bad' = bad \o Mk(e, lineNo, "C10", dv \cup Classify(pre, cv) \cup drn)
-                     \o Mk(e, lineNo, "C12", lim)
-       /\ aux' = [aux EXCEPT !.inflight = @ \cup {s}]
+                     \o Mk(e, lineNo, "C12", lim) \o Mk(e, lineNo, "C03", c03) \o Mk(e, lineNo, "C11", c11)
+       /\ aux' = [aux EXCEPT !.inflight = @ \cup {s},
+                              !.neededAtPop = IF s \in Keys(pre) /\ NeededStep(pre, aux.mem, s) THEN @ \cup {s} ELSE @ \ {s},
+                              !.readyAtPop = IF s \in Keys(pre) /\ ReadyDef(pre, s) THEN @ \cup {s} ELSE @ \ {s}]
        /\ cnt' = Bump(cnt, "pop_dispatch")
        /\ UNCHANGED st
   ELSE IF e.draining THEN UNCHANGED <<st, aux, bad, cnt>>
@@ -262,11 +274,19 @@ OnCmdStart(e, lineNo) ==
         \cup {<<"resource_limit_exceeded", r>> : r \in {r \in DeclNames(s) : r \in DOMAIN aux.mem.avail /\
                SumDecl(RunningSteps \cup {s}, r) > aux.mem.avail[r]}}
       held == IF s \in DOMAIN aux.heldBy THEN {<<"started_while_creator_holds", "">>} ELSE {}
-      avail == IF ~known THEN {} ELSE
+      \* availability is decided at dispatch (checked there as dispatch_input_unavailable); a plan that
+      \* runs at the same time may re-declare a static input (UNCONFIRMED until its hash job is done) or
+      \* make a producer pending before the command starts -- the completion re-hash deals with that
+      avail == IF ~known \/ s \in aux.readyAtPop THEN {} ELSE
         {<<"started_with_unavailable_input", f>> : f \in {f \in Sources(st, s) :
               st.nodes[f].fstate \notin Available}}
-      state == IF known /\ st.nodes[s].sstate # "RUNNING" THEN {<<"command_without_running_state", "">>} ELSE {}
-      need == IF known /\ ~st.nodes[s].detached /\ ~NeededStep(st, aux.mem, s)
+      \* F25: the creator re-created the row of s (changed declaration) while the job of s was in flight
+      state == IF known /\ st.nodes[s].sstate # "RUNNING"
+               THEN {<<"command_without_running_state", "",
+                       IF s \in aux.redefInflight THEN "F25-step-redefined-while-its-job-is-in-flight" ELSE "">>} ELSE {}
+      \* the decision to execute is taken at dispatch; plans running at the same time may make the
+      \* step unneeded before its command starts (its output is then reverted at the end)
+      need == IF known /\ ~st.nodes[s].detached /\ ~NeededStep(st, aux.mem, s) /\ s \notin aux.neededAtPop
               THEN {<<"executed_step_that_is_not_needed", s>>} ELSE {}
   IN /\ bad' = bad \o Mk(e, lineNo, "C12", over \cup res \cup held)
                    \o Mk(e, lineNo, "C03", avail) \o Mk(e, lineNo, "C09", state)
@@ -307,7 +327,10 @@ DefineEffect(db, d, creator) ==
           THEN {<<"defined_step_wrong_resources", s>>} ELSE {})
     \cup (IF {x[1] : x \in {y \in DepT(db) : y[2] = s /\ ~y[3]}} # {"file:" \o d.inp[i] : i \in DOMAIN d.inp}
           THEN {<<"defined_step_wrong_inputs", s>>} ELSE {})
-    \cup (IF {x[2] : x \in {y \in DepT(db) : y[1] = s /\ ~y[3] /\ ~db.nodes[y[2]].detached}}
+    \* (the outputs it owns: a former output keeps a stale edge but has no creator any more; when the
+    \* defining creator is itself detached -- still running after its own creator failed -- everything
+    \* it defines is detached too)
+    \cup (IF {x[2] : x \in {y \in DepT(db) : y[1] = s /\ ~y[3] /\ db.nodes[y[2]].creator = s}}
               # {"file:" \o d.out[i] : i \in DOMAIN d.out} \cup {"file:" \o d.vol[i] : i \in DOMAIN d.vol}
           THEN {<<"defined_step_wrong_outputs", s>>} ELSE {})
     \cup (IF {db.nodes[s].envVars[i][1] : i \in {j \in DOMAIN db.nodes[s].envVars : ~db.nodes[s].envVars[j][3]}}
@@ -410,6 +433,9 @@ OnPhaseEnd(e, lineNo) ==
                    \o Mk(e, lineNo, "C03", c03)
      /\ cnt' = [Bump(cnt, "phase_end") EXCEPT !["final_reads_checked"] = @ + Cardinality(DOMAIN aux.finalReads)]
      /\ aux' = [aux EXCEPT !.diskBefore = e.disk.files, !.phaseRc = e.rc, !.finalReads = EmptyFn,
+                            !.recordedBefore = [p \in {st.nodes[f].label : f \in {f \in Keys(st) : st.nodes[f].kind = "file"
+                                                                                     /\ st.nodes[f].fhash # NULL}}
+                                                 |-> st.nodes["file:" \o p].fhash],
                            !.tainted = {}, !.inputChanged = FALSE, !.taintPath = EmptyFn,
                            !.refreshed = {}, !.refreshedPhase = {}]
      /\ UNCHANGED st
@@ -494,8 +520,11 @@ OnFinalizeEnd(e, lineNo) ==
       c06 ==
         {<<"removed_although_cleanup_disabled", p>> : p \in {p \in removed : ~allowed}}
         \cup {<<"removed_file_never_produced_by_a_step", p>> : p \in {p \in removed : p \notin DOMAIN aux.produced}}
+        \* modified after StepUp last recorded it: against the recorded content when there is one (a
+        \* rehash after a failed run also records), else against what the declaring step last wrote
         \cup {<<"removed_modified_output", p>> : p \in {p \in removed : p \in DOMAIN aux.produced
-                 /\ p \notin aux.volatileEver /\ before[p][1] # aux.produced[p]}}
+                 /\ p \notin aux.volatileEver
+                 /\ before[p][1] # (IF p \in DOMAIN aux.recordedBefore THEN aux.recordedBefore[p] ELSE aux.produced[p])}}
         \cup {<<"removed_static_file", p>> : p \in {p \in removed : isStatic(p)}}
       activeOutput(p) ==
         LET f == "file:" \o p IN
